@@ -273,6 +273,10 @@ func (its *document) PutToObject(key string, value interface{}) (Document, error
 	if types.IsNull(value) {
 		return nil, errors.DatatypeIllegalParameters.New(its.L(), "null value is not allowed")
 	}
+	value, cErr := types.ConvertToReplicatedValue(value)
+	if cErr != nil {
+		return nil, errors.DatatypeIllegalParameters.New(its.L(), cErr.Error())
+	}
 	op := operations.NewDocPutInObjOperation(its.snapshot().getCreateTime(), key, value)
 	removed, err := its.SentenceInTx(its.TxCtx, op, true)
 	if err != nil {
@@ -344,6 +348,10 @@ func (its *document) InsertToArray(pos int, values ...interface{}) (Document, er
 	if err := its.assertNoNullValue(values); err != nil {
 		return its, err
 	}
+	values, cErr := types.ConvertValueList(values)
+	if cErr != nil {
+		return its, errors.DatatypeIllegalParameters.New(its.L(), cErr.Error())
+	}
 	op := operations.NewDocInsertToArrayOperation(its.snapshot().getCreateTime(), pos, values)
 	if _, err := its.SentenceInTx(its.TxCtx, op, true); err != nil {
 		return its, err
@@ -391,6 +399,10 @@ func (its *document) UpdateManyInArray(pos int, values ...interface{}) ([]Docume
 	}
 	if err := its.assertNoNullValue(values); err != nil {
 		return nil, err
+	}
+	values, cErr := types.ConvertValueList(values)
+	if cErr != nil {
+		return nil, errors.DatatypeIllegalParameters.New(its.L(), cErr.Error())
 	}
 	op := operations.NewDocUpdateInArrayOperation(its.snapshot().getCreateTime(), pos, values)
 	oldOnes, err := its.SentenceInTx(its.TxCtx, op, true)
